@@ -129,6 +129,33 @@ Section Iter.
     change (Z.pos_sub 1 1) with 0%Z in G. rewrite G. cbn [skipn]. do 3 f_equal. apply map_ext. intros. f_equal. lia.
   Qed.
 
+  (* ---- sequence: pairs(s) steps the indices 1..#s through sequence.__atindex, which leaves an initialised
+     sequence as it is for those indices *)
+  Lemma seq_get_inrange : forall s i x, seq_wf T s -> nth_error (seq_contents T s) i = Some x ->
+    seq_get T dflt (i + 1) s = Ok (s, x).
+  Proof.
+    intros [b d n] i x (W1 & W2) H. unfold seq_contents, seq_len in H; cbn [sinit sdata ssize] in *.
+    destruct b.
+    2:{ rewrite nthe_firstn in H. destruct (Nat.ltb_spec i 0); [lia|discriminate]. }
+    rewrite nthe_firstn, nthe_skipn in H. destruct (Nat.ltb_spec i n); [|discriminate].
+    unfold seq_get, seq_atindex, seq_init, seq_capn; cbn [sinit sdata ssize].
+    destruct (Nat.ltb_spec n (i + 1)); [lia|].
+    destruct W2 as [[-> ->]|W2]; [lia|].
+    destruct (Nat.eqb_spec (length d) 0); [lia|]. cbn [andb rbind sdata].
+    replace (i + 1) with (1 + i) by lia. rewrite (sget_Some _ _ _ _ H). reflexivity.
+  Qed.
+
+  Theorem seq_pairs_ok : forall s, seq_wf T s ->
+    seq_pairs T dflt s = Ok (s, combine (map (fun i => Z.of_nat (i + 1)) (List.seq 0 (seq_len T s))) (seq_contents T s)).
+  Proof.
+    intros s W. unfold seq_pairs, seq_ipairs_next.
+    assert (length (seq_contents T s) = seq_len T s) as L.
+    { rewrite (seq_contents_eq T dflt s W), (seq_len_eq T dflt s W). reflexivity. }
+    pose proof (for_in_ip (seq T) T 1 (seq_len T) (seq_get T dflt) s (seq_contents T s)) as G.
+    rewrite L in G. specialize (G eq_refl (fun i x H => seq_get_inrange s i x W H) (seq_len T s) 0 ltac:(lia) ltac:(lia)).
+    change (Z.of_nat (0 + 1) - 1)%Z with 0%Z in G. rewrite G. reflexivity.
+  Qed.
+
   (* ---- list: pairs(l) = listT.__next from nilptr visits the nodes front to back *)
   Notation dl_wf := (dl_wf T).
   Notation vals := (vals T dflt).
@@ -168,6 +195,84 @@ Section Iter.
     rewrite (dl_pairs_loop d idx W (length idx) 0) by lia. reflexivity.
   Qed.
 
+  (* ---- list: `for node, x in mpairs(l) do $x = f($x) end` is the element-wise update; links untouched *)
+  Definition amap (f : T -> T) (S0 : list nat) (a a' : list (lnode T)) : Prop :=
+    length a' = length a /\
+    forall i nd, nth_error a i = Some nd -> exists nd', nth_error a' i = Some nd' /\
+      lprev T nd' = lprev T nd /\ lnext T nd' = lnext T nd /\ lalive T nd' = lalive T nd /\
+      (In i S0 -> lval T nd' = f (lval T nd)) /\ (~ In i S0 -> lval T nd' = lval T nd).
+
+  Lemma amap_wf : forall f S0 a a' fr bk idx, amap f S0 a a' -> dl_wf (mkdl T a fr bk) idx -> dl_wf (mkdl T a' fr bk) idx.
+  Proof.
+    intros f S0 a a' fr bk idx (L & P) (ND & F & B & N). repeat split; try assumption.
+    intros k i Hk. destruct (N k i Hk) as (nd & Hn & Al & Pr & Nx). cbn [larena] in *.
+    destruct (P i nd Hn) as (nd' & Hn' & E1 & E2 & E3 & _). exists nd'. rewrite E1, E2, E3. auto.
+  Qed.
+
+  Lemma firstn_S_snoc : forall A (l : list A) p j, nth_error l p = Some j -> firstn (S p) l = firstn p l ++ [j].
+  Proof.
+    induction l as [|a l IH]; intros [|p] j H; cbn in *; try discriminate; [inversion H; reflexivity|].
+    f_equal. apply IH. assumption.
+  Qed.
+
+  Lemma nodup_not_in_firstn : forall (l : list nat) p j, NoDup l -> nth_error l p = Some j -> ~ In j (firstn p l).
+  Proof.
+    intros l p j ND H Hin. apply In_nth_error in Hin. destruct Hin as (q & Hq). rewrite nthe_firstn in Hq.
+    destruct (Nat.ltb_spec q p); [|discriminate].
+    assert (q = p); [|lia]. apply (proj1 (NoDup_nth_error l) ND); [eapply nth_error_Some_lt; eauto|congruence].
+  Qed.
+
+  Lemma dl_mpairs_loop : forall f a fr bk idx, dl_wf (mkdl T a fr bk) idx ->
+    forall rem p fuel ap, rem = length idx - p -> p <= length idx -> rem < fuel -> amap f (firstn p idx) a ap ->
+    exists a', for_do (dlist T) (option nat) nat fuel (dl_mnext T)
+                 (fun _ r d => x <- lupd T r (fun nd => set_lval T (f (lval T nd)) nd) (larena T d) ;;
+                               Ok (mkdl T x (lfront T d) (lback T d))) (mkdl T ap fr bk) (ctl_at idx p) = Ok (mkdl T a' fr bk) /\
+               amap f idx a a'.
+  Proof.
+    intros f a fr bk idx W0. induction rem as [|rem IH]; intros p fuel ap Hr Hp Hf AM; (destruct fuel as [|fuel]; [lia|]);
+      rewrite for_do_S; unfold dl_mnext at 1;
+      pose proof (amap_wf f _ a ap fr bk idx AM W0) as Wp; rewrite (dl_next_node_ok _ idx p Wp Hp); cbn [rbind].
+    - rewrite (nthe_beyond _ idx p) by lia. cbn [fst snd]. exists ap. split; [reflexivity|].
+      rewrite firstn_all2 in AM by lia. assumption.
+    - destruct (nth_error idx p) as [j|] eqn:E; [|apply nth_error_None in E; lia].
+      destruct Wp as (ND & F & B & N). destruct (N p j E) as (ndp & Hnp & Alp & _ & _). cbn [larena] in *.
+      rewrite (lget_alive T _ _ _ Hnp Alp). cbn [rbind fst snd larena lfront lback].
+      rewrite (lupd_alive T _ _ _ _ Hnp Alp). cbn [rbind].
+      pose proof (nth_error_Some_lt _ _ _ _ Hnp) as Lj.
+      assert (amap f (firstn (S p) idx) a (overwrite j [set_lval T (f (lval T ndp)) ndp] ap)) as AM'.
+      { destruct AM as (L & P). split; [rewrite length_upd by assumption; assumption|].
+        intros i nd Hi. rewrite nthe_upd by assumption. rewrite (firstn_S_snoc _ idx p j E).
+        destruct (P i nd Hi) as (nd' & Hn' & E1 & E2 & E3 & E4 & E5).
+        destruct (Nat.eqb_spec i j) as [->|Hij].
+        - rewrite Hnp in Hn'. inversion Hn'; subst nd'. eexists. split; [reflexivity|]. cbn [set_lval lprev lnext lalive lval].
+          repeat split; try assumption.
+          + intros _. rewrite (E5 (nodup_not_in_firstn idx p j ND E)). reflexivity.
+          + intros X. exfalso. apply X. apply in_or_app. right. left. reflexivity.
+        - exists nd'. repeat split; try assumption.
+          + intros X. apply in_app_or in X. destruct X as [X|[X|[]]]; [auto|congruence].
+          + intros X. apply E5. intros Y. apply X. apply in_or_app. left. assumption. }
+      replace (Some j) with (ctl_at idx (S p)) by (cbn [ctl_at]; exact E).
+      apply (IH (S p) fuel); try lia. exact AM'.
+  Qed.
+
+  Theorem dl_mpairs_map_ok : forall f d idx, dl_wf d idx ->
+    exists d', dl_mpairs_map T f d = Ok d' /\ dl_wf d' idx /\ vals (larena T d') idx = map f (vals (larena T d) idx).
+  Proof.
+    intros f [a fr bk] idx W. unfold dl_mpairs_map. cbn [larena]. change None with (ctl_at idx 0).
+    assert (length idx <= length a) as L.
+    { destruct W as (ND & _ & _ & N). apply nodup_bound; [assumption|]. intros i Hi. apply In_nth_error in Hi.
+      destruct Hi as (k & Hk). destruct (N k i Hk) as (nd & Hn & _). eapply nth_error_Some_lt; eauto. }
+    assert (amap f (firstn 0 idx) a a) as A0.
+    { split; [reflexivity|]. intros i nd H. exists nd. cbn [firstn]. repeat split; auto. intros []. }
+    destruct (dl_mpairs_loop f a fr bk idx W (length idx) 0 (S (length a)) a ltac:(lia) ltac:(lia) ltac:(lia) A0) as (a' & -> & AM).
+    eexists. split; [reflexivity|]. split; [eapply amap_wf; eauto|]. cbn [larena].
+    unfold Model.vals. rewrite map_map. apply map_ext_in. intros i Hi.
+    destruct W as (ND & _ & _ & N). apply In_nth_error in Hi. destruct Hi as (k & Hk).
+    destruct (N k i Hk) as (nd & Hn & _). cbn [larena] in Hn. destruct AM as (_ & P).
+    destruct (P i nd Hn) as (nd' & Hn' & _ & _ & _ & E4 & _). unfold val_at. rewrite Hn, Hn'. apply E4.
+    eapply nth_error_In; eauto.
+  Qed.
+
   (* the reference handed out by mpairs(l) / mnext is the node: its value field is what pairs yields *)
   Theorem dl_mnext_alias : forall d node, 
     match dl_next T d node with
@@ -202,6 +307,79 @@ Section IterHM.
   Theorem hm_for_pairs_ok : forall m : hmap K V,
     exists l, hm_for_pairs K V m = Ok (m, l) /\ map snd l = hm_abs K V m.
   Proof. intros m. unfold hm_for_pairs. apply hm_for_pairs_loop. apply (hm_pairs_ok K V m). Qed.
+
+  (* ---- `for k, v in mpairs(m) do $v = f($v) end` through the iterator object is hm_mapvals f *)
+  Lemma scan_pt : forall (rest : list (hnode K V)) c,
+    match hm_scan K V rest c with
+    | Some (i, nd) => c <= i /\ nth_error rest (i - c) = Some nd /\ nfilled K V nd = true /\
+                      forall j x, j < i - c -> nth_error rest j = Some x -> nfilled K V x = false
+    | None => forall j x, nth_error rest j = Some x -> nfilled K V x = false
+    end.
+  Proof.
+    induction rest as [|a rest IH]; intros c; cbn [hm_scan].
+    - intros j x H. destruct j; discriminate.
+    - destruct (nfilled K V a) eqn:F.
+      + rewrite Nat.sub_diag. split; [lia|]. split; [reflexivity|]. split; [assumption|]. intros j x Hj. lia.
+      + specialize (IH (S c)). destruct (hm_scan K V rest (S c)) as [[i nd]|].
+        * destruct IH as (A & B & C & D). split; [lia|]. replace (i - c) with (S (i - S c)) by lia. split; [exact B|].
+          split; [assumption|]. intros [|j] x Hj Hx; cbn in Hx; [inversion Hx; subst; assumption|]. apply (D j x); [lia|assumption].
+        * intros [|j] x Hx; cbn in Hx; [inversion Hx; subst; assumption|]. eapply IH; eauto.
+  Qed.
+
+  Definition mapnode (f : V -> V) (nd : hnode K V) : hnode K V :=
+    if nfilled K V nd then set_val K V (f (nval K V nd)) nd else nd.
+
+  Lemma hm_for_mpairs_loop : forall f bs ns sz fr rem c fuel, length ns - c <= rem -> c <= length ns -> rem < fuel ->
+    for_do (hmap K V) (option nat) nat fuel (hm_it_mnext K V)
+      (fun _ r m => nd <- sget r (hnodes K V m) ;;
+                    ns' <- sset r (set_val K V (f (nval K V nd)) nd) (hnodes K V m) ;;
+                    Ok (mkhm K V (hbuckets K V m) ns' (hsize K V m) (hfree K V m)))
+      (mkhm K V bs (map (mapnode f) (firstn c ns) ++ skipn c ns) sz fr) (it_of c) =
+    Ok (mkhm K V bs (map (mapnode f) ns) sz fr).
+  Proof.
+    intros f bs ns sz fr. induction rem as [|rem IH]; intros c fuel Hr Hc Hf; (destruct fuel as [|fuel]; [lia|]);
+      rewrite for_do_S; unfold hm_it_mnext at 1; cbn [rbind fst snd]; unfold hm_iter_next; cbn [hnodes];
+      replace (match it_of c with Some i => S i | None => 0 end) with c by (destruct c; reflexivity);
+      (assert (skipn c (map (mapnode f) (firstn c ns) ++ skipn c ns) = skipn c ns) as ->
+         by (rewrite skipn_app, map_length, firstn_length; replace (Nat.min c (length ns)) with c by lia;
+             rewrite Nat.sub_diag, skipn_all2 by (rewrite map_length, firstn_length; lia); reflexivity));
+      pose proof (scan_pt (skipn c ns) c) as SP; destruct (hm_scan K V (skipn c ns) c) as [[i nd]|].
+    - destruct SP as (A & B & _). apply nth_error_Some_lt in B. rewrite skipn_length in B. lia.
+    - f_equal. f_equal. assert (c = length ns) by lia. subst c. rewrite firstn_all, skipn_all, app_nil_r. reflexivity.
+    - destruct SP as (A & B & F & D). rewrite nthe_skipn in B. replace (c + (i - c)) with i in B by lia.
+      pose proof (nth_error_Some_lt _ _ _ _ B) as Li.
+      assert (length (map (mapnode f) (firstn c ns) ++ skipn c ns) = length ns) as Ln
+        by (rewrite app_length, map_length, firstn_length, skipn_length; lia).
+      assert (nth_error (map (mapnode f) (firstn c ns) ++ skipn c ns) i = Some nd) as Hi.
+      { rewrite nthe_app, map_length, firstn_length. replace (Nat.min c (length ns)) with c by lia.
+        destruct (Nat.ltb_spec i c); [lia|]. rewrite nthe_skipn. replace (c + (i - c)) with i by lia. assumption. }
+      cbn [hnodes hbuckets hsize hfree]. rewrite (sget_Some _ _ _ _ Hi). cbn [rbind]. rewrite sset_ok by lia. cbn [rbind].
+      change (Some i) with (it_of (S i)).
+      assert (overwrite i [set_val K V (f (nval K V nd)) nd] (map (mapnode f) (firstn c ns) ++ skipn c ns) =
+              map (mapnode f) (firstn (S i) ns) ++ skipn (S i) ns) as ->.
+      { apply nth_error_ext; intro j. rewrite nthe_upd by lia.
+        rewrite !nthe_app, !map_length, !firstn_length, !nthe_skipn, !nth_error_map, !nthe_firstn.
+        replace (Nat.min c (length ns)) with c by lia. replace (Nat.min (S i) (length ns)) with (S i) by lia.
+        destruct (Nat.eqb_spec j i) as [->|Hji].
+        - destruct (Nat.ltb_spec i (S i)); [|lia]. rewrite B. cbn [option_map]. unfold mapnode. rewrite F. reflexivity.
+        - destruct (Nat.ltb_spec j c); destruct (Nat.ltb_spec j (S i)); try lia; try reflexivity.
+          + replace (c + (j - c)) with j by lia. destruct (nth_error ns j) as [x|] eqn:Ex; [|reflexivity]. cbn [option_map].
+            unfold mapnode. rewrite (D (j - c) x); [reflexivity|lia|]. rewrite nthe_skipn. replace (c + (j - c)) with j by lia. assumption.
+          + f_equal. lia. }
+      apply (IH (S i) fuel); lia.
+    - f_equal. f_equal. apply nth_error_ext; intro j.
+      rewrite nthe_app, map_length, firstn_length, nthe_skipn, !nth_error_map, nthe_firstn.
+      replace (Nat.min c (length ns)) with c by lia. destruct (Nat.ltb_spec j c); [reflexivity|].
+      replace (c + (j - c)) with j by lia. destruct (nth_error ns j) as [x|] eqn:Ex; [|reflexivity]. cbn [option_map].
+      unfold mapnode. rewrite (SP (j - c) x); [reflexivity|]. rewrite nthe_skipn. replace (c + (j - c)) with j by lia. assumption.
+  Qed.
+
+  Theorem hm_for_mpairs_ok : forall f (m : hmap K V), hm_for_mpairs K V f m = Ok (hm_mapvals K V f m).
+  Proof.
+    intros f [bs ns sz fr]. unfold hm_for_mpairs, hm_mapvals. cbn [hnodes hbuckets hsize hfree]. change None with (it_of 0).
+    pose proof (hm_for_mpairs_loop f bs ns sz fr (length ns) 0 (S (length ns)) ltac:(lia) ltac:(lia) ltac:(lia)) as H.
+    cbn [firstn map app skipn] in H. rewrite H. reflexivity.
+  Qed.
 
   Theorem hm_it_mnext_alias : forall (m : hmap K V) it,
     match hm_it_next K V m it with
